@@ -75,6 +75,15 @@ def gen(rng, tier):
                                        rng.randrange(10 ** 6)]])
             else:
                 items.append(['wait', rng.choice([1, 30, 90])])
+        if rng.random() < 0.35:
+            # aimed: the publishing connection fails once (the manager
+            # replaces its connections), then values that are not messages
+            # make the listener restart its iterator, then a sentinel
+            at = rng.randrange(len(items) + 1)
+            items[at:at] = [['publish_hiccup', 1]] + [
+                ['junk', [rng.choice(['pickle_nondict', 'json_nondict']),
+                          rng.randrange(10 ** 6)]] for _ in range(3)] + [
+                ['sentinel', 0]]
         return {'cfg': cfg, 'items': items}
     items = []
     for _ in range(rng.randrange(8, 30)):
